@@ -26,7 +26,7 @@ MODEL_CFGS = {
     # name: (K, L, Gaps, PosGaps, MaxJumps, Due)
     "k2l4": (2, 4, "cGaps4", "cPos2", 2, "cDueSome2"),
     "k2l8": (2, 8, "cGaps4", "cPos2", 2, "cDueAll2"),
-    "k1l8g6": (1, 8, "cGaps6", "cPos3", 3, "cDueAll1"),
+    "k1l8g6": (1, 8, "cGaps6", "cPos3", 1, "cDueAll1"),   # more gap values, one jump per step (32-bit rationals overflow beyond)
     "k3l4": (3, 4, "cGaps4", "cPos2", 1, "cDueAll3"),
 }
 DUE = {"cDueAll2": [0, 1, 2], "cDueSome2": [0, 2], "cDueAll3": [0, 1, 2, 3], "cDue1": [1], "cDueAll1": [0, 1]}
